@@ -84,6 +84,9 @@ enum Sc {
     Gen { kind: GenKind, size: usize, inner: usize, by_ref: bool, rng: RngSpec },
     Choice { flavour: u8, len: usize, dup: bool, samples: usize, rng: RngSpec },
     Dist { flavour: u8, len: usize, trials: u64, seed: u64, cells_total: u64 },
+    /// a source with more members than an f32 / a 24-bit index can address:
+    /// members at odd and at even positions must both be chosen about half the time
+    BigDist { flavour: u8, log2_len: u32, trials: u64, seed: u64, cells_total: u64 },
 }
 
 const FLAVOURS: u8 = 16;
@@ -379,6 +382,56 @@ fn exec_dist(f: u8, len: usize, trials: u64, seed: u64, cells_total: u64, obs: &
     v
 }
 
+fn exec_big(f: u8, log2_len: u32, trials: u64, seed: u64, cells_total: u64, obs: &mut Obs) -> Vec<Violation> {
+    let len = (1usize << log2_len) + 1;
+    let items: Vec<u8> = (0..len).map(|i| (i % 2) as u8).collect();
+    let mut rng = FastRng::new(seed);
+    let name = flavour_name(f);
+    let r = catch(|| -> Option<u64> {
+        let mut odd = 0u64;
+        match f {
+            0 => {
+                let d = IntoDistribution::<u8>::into_distribution(items).ok()?;
+                for _ in 0..trials {
+                    odd += u64::from(d.sample(&mut rng));
+                }
+            }
+            2 => {
+                let d = IntoDistribution::<u8>::into_distribution(&items).ok()?;
+                for _ in 0..trials {
+                    odd += u64::from(d.sample(&mut rng));
+                }
+            }
+            _ => {
+                let s: &[u8] = &items;
+                let d = IntoDistribution::<&u8>::into_distribution(s).ok()?;
+                for _ in 0..trials {
+                    odd += u64::from(*d.sample(&mut rng));
+                }
+            }
+        }
+        Some(odd)
+    });
+    let mut v = Vec::new();
+    let Ok(Some(odd)) = r else { return v };
+    obs.count("steps", trials);
+    obs.hit("stat-cells");
+    obs.hit("probe.source-larger-than-2^24-members");
+    obs.nontrivial(mix(mix(5, u64::from(f)), u64::from(log2_len)));
+    let verdict = stats::decide(trials, odd, (len / 2) as f64 / len as f64, cells_total);
+    if verdict.violated {
+        v.push(Violation::new(
+            "members-equally-likely",
+            format!("not-uniform-in-large-source:{name}"),
+            format!(
+                "{name} over {len} members: a member at an odd position was chosen {odd} times in {trials} seeded samples (expected about half; n*KL = {:.1}, threshold {:.1})",
+                verdict.stat, verdict.threshold
+            ),
+        ));
+    }
+    v
+}
+
 fn exec_gen(kind: GenKind, size: usize, inner: usize, by_ref: bool, spec: &RngSpec, obs: &mut Obs) -> Vec<Violation> {
     let mut rng = spec.build();
     let probe = Probe::new();
@@ -543,6 +596,7 @@ impl Check for C18 {
 
     fn runs(&self, tier: Tier) -> u64 {
         dist_cells().len() as u64
+            + 3
             + match tier {
                 Tier::Quick => 400_000,
                 Tier::Thorough => 30_000_000,
@@ -559,6 +613,16 @@ impl Check for C18 {
                 trials: if tier == Tier::Quick { 100_000 } else { 1_000_000 },
                 seed: g.next_u64(),
                 cells_total: cells.iter().map(|(_, l)| *l as u64).sum(),
+            };
+        }
+        let big = run as usize - cells.len();
+        if big < 3 {
+            return Sc::BigDist {
+                flavour: [0u8, 2, 10][big],
+                log2_len: 25,
+                trials: 20_000,
+                seed: g.next_u64(),
+                cells_total: cells.iter().map(|(_, l)| *l as u64).sum::<u64>() + 3,
             };
         }
         let rng = RngSpec::swarm(g);
@@ -597,6 +661,7 @@ impl Check for C18 {
             Sc::Gen { kind, size, inner, by_ref, rng } => exec_gen(*kind, *size, *inner, *by_ref, rng, obs),
             Sc::Choice { flavour, len, dup, samples, rng } => exec_choice(*flavour, *len, *dup, *samples, rng, obs),
             Sc::Dist { flavour, len, trials, seed, cells_total } => exec_dist(*flavour, *len, *trials, *seed, *cells_total, obs),
+            Sc::BigDist { flavour, log2_len, trials, seed, cells_total } => exec_big(*flavour, *log2_len, *trials, *seed, *cells_total, obs),
         }
     }
 
@@ -625,7 +690,7 @@ impl Check for C18 {
                     out.push(Sc::Choice { flavour: *flavour, len: *len, dup: *dup, samples: *samples, rng: RngSpec::seeded(rng.seed) });
                 }
             }
-            Sc::Dist { .. } => {}
+            Sc::Dist { .. } | Sc::BigDist { .. } => {}
         }
         out
     }
